@@ -720,3 +720,10 @@ func c20SeriesIdAs(p *Prog, r *Report, rule string) {
 	}
 	r.Ob("filter:exact", p.Pos(ff.Decl.Pos()), prefixOK && sepOK > 0 && shape == "", fmt.Sprintf("%s is (length guard) ∧ (id is the line prefix: %v) ∧ (character directly after the id is one of %d separator constants) and nothing else %s (a test on the rest of the line as a whole lets 'W1' match the lines of 'W10'; an alternative instead of a conjunction accepts every line with a separator at that position)", filter.Name(), prefixOK, sepOK, shape))
 }
+
+// c20PhaseAs emits the phase rule as a rule of its own (for properties that depend on the groundwater table the
+// inputs describe).
+func c20PhaseAs(p *Prog, r *Report, rule string) {
+	r.Rule(rule, "the configured groundwater phase reaches the model unchanged: a single unconditional copy of the configured value (a value-dependent fallback would replace a configured phase of 0 and move the table away from the one the inputs describe)", 1)
+	c20Phase(p, r)
+}
